@@ -1101,8 +1101,17 @@ def gen_proto(utils, em_state, st_fns):
         em.emitted = set(st_fns)
         env = {n: t for n, t in vars_}
         known = set(env)
+        state_vars = [n for n, t in vars_ if t == 'Self']
         for name, exprs in proto_lets(text).items():
-            if name not in known and len(exprs) == 1:
+            if name in known:
+                continue
+            # a local that holds the count word an atomic access returned is THE word variable of the function, whatever
+            # the source calls it (functions with one such variable only)
+            if len(state_vars) == 1 and exprs and all(re.fullmatch(r"Self::from_raw\(\s*(LOADED|FETCHED|\w+)\s*\)", e) for e in exprs):
+                env[name] = 'Self'
+                env['$val:' + name] = state_vars[0]
+                continue
+            if len(exprs) == 1:
                 em.lazy_lets[name] = exprs[0]
         # a variable that has the name of a State function (`epoch`) must not shadow it in the generated term
         bname = {n: (n + '_v' if n in sigs else n) for n, _ in vars_}
